@@ -16,3 +16,5 @@ pub mod e_prog;
 pub mod pp;
 pub mod e_resolve;
 pub mod e_total;
+pub mod audit;
+pub mod e_gc;
